@@ -608,7 +608,7 @@ class HtmlTreeView(HtmlView):
             lambda: Html.element(  # pylint: disable=g-long-ternary
                 'div',
                 [
-                    name,
+                    Html.escape(name),
                     key_tooltip_fn(   # pylint: disable=g-long-ternary
                         root_path,
                         name=name,
@@ -717,7 +717,7 @@ class HtmlTreeView(HtmlView):
         Html.element(
             'span',
             [
-                str(root_path.key),
+                Html.escape(str(root_path.key)),
             ],
             css_classes=[
                 'object-key',
